@@ -195,6 +195,51 @@ def case_rounding_Q(H, f32=False):
         H.notes.append('%s path %d: %d rounding variables' % (name, pn, len(ctx.deltas)))
 
 
+def case_size_split(H, g, N=600):
+    """one symbolic element acting on a LARGE cloud of concrete points (size-dependent fast paths): the gradient with respect to the
+    element for all N points must equal the sum of the gradients for the two halves (the loss sum_i <g_i, X.Act(p_i)> is additive in the
+    points), each computed by the real backward; the halves are below any plausible size threshold, where C04's other cases apply"""
+    name = 'C04/%s/Act3/N=%d-vs-two-halves' % (g, N)
+    gen = torch.Generator().manual_seed(77)
+    P = torch.randn(N, 3, dtype=DT, generator=gen)
+    G = torch.randn(N, 3, dtype=DT, generator=gen)
+
+    def grads(X):
+        out = []
+        for sl in (slice(0, N), slice(0, N // 2), slice(N // 2, N)):
+            Xl = X.detach().clone().requires_grad_(True) if not isinstance(X, tuple) else None
+            y = Xl.Act(P[sl])
+            g_, = torch.autograd.grad(y, [Xl], grad_outputs=G[sl])
+            out.append(g_.tensor() if isinstance(g_, pp.LieTensor) else g_)
+        return out
+
+    def prog(m):
+        X, xs = sym_group(m, g, 'x', 78)
+        outs = []
+        for sl in (slice(0, N), slice(0, N // 2), slice(N // 2, N)):
+            Xl = pp.LieTensor(X.tensor().clone(), ltype=GTYPE[g])
+            m.set_terms(Xl.tensor(), xs)
+            Xl.requires_grad_(True)
+            y = Xl.Act(P[sl])
+            g_, = torch.autograd.grad(y, [Xl], grad_outputs=G[sl])
+            outs.append(m.full_terms(g_.tensor() if isinstance(g_, pp.LieTensor) else g_))
+        return outs, xs
+
+    def replay(model):
+        xv = normalize_group(g, tensor_from_env(['x%d' % i for i in range(GDIM[g])], model))
+        if float(xv.abs().sum()) == 0 or not torch.isfinite(xv).all():
+            xv = rand_group(g, 78).tensor()
+        a, b, c = grads(pp.LieTensor(xv, ltype=GTYPE[g]))
+        e = (a - (b + c)).abs().max().item() / (1 + a.abs().max().item())
+        return e > 1e-9, 'gradient of sum_i <g_i, X.Act(p_i)> over %d points differs from the sum over its two halves by %.3g (relative)' % (N, e)
+
+    for ctx, (outs, xs) in run_paths(H, name, prog, max_paths=4):
+        hyp = H.hyps_of(ctx)
+        full, h1, h2 = outs
+        for j in range(len(full)):
+            H.same('%s/grad[%d]' % (name, j), hyp, full[j], h1[j] + h2[j], ctx, replay=replay, key='C04/Act.backward/size', timeout=20)
+
+
 POLY = ('Act3', 'Act4', 'Mul', 'Inv', 'Adj', 'AdjT', 'matrix', '(X@Y.Inv()).Act(p)', 'X.Inv().Act(Y.Act(p))')
 
 
@@ -230,6 +275,14 @@ def run(H):
             except Exception as e:
                 import traceback; traceback.print_exc()
                 H.engine_error(nm, e)
+    for g in (('SE3',) if H.quick else GROUPS):
+        if only and only not in 'size':
+            continue
+        try:
+            case_size_split(H, g)
+        except Exception as e:
+            import traceback; traceback.print_exc()
+            H.engine_error('size-split/' + g, e)
     for f32 in ((False,) if H.quick else (False, True)):
         if only and only not in 'rounding':
             continue
